@@ -134,7 +134,7 @@ func (s *pstate) emitCall(ci *callInfo, res *Term) {
 }
 
 func (s *pstate) addFact(f Fact, cond ast.Expr) {
-	if s.facts.Has(f) {
+	if s.facts.Has(f) || isConstTerm(f.T) {
 		return
 	}
 	s.facts.Add(f)
@@ -276,6 +276,7 @@ func (p *Prog) walk(f *Func, b *cfg.Block, st *pstate, out *[]*Path) {
 			p.walk(f, b.Succs[1], s2, out)
 			return
 		}
+		ct = st.reduce(ct)
 		switch st.decide(ct) {
 		case 1:
 			for _, fa := range condFacts(ct, true) {
@@ -722,6 +723,28 @@ func pureTerm(t *Term) bool {
 		return pure
 	})
 	return pure
+}
+
+// reduce replaces decided sub-conditions of a compound condition by constants,
+// so that the facts recorded on each edge are as atomic as the path allows.
+func (s *pstate) reduce(t *Term) *Term {
+	if t == nil {
+		return t
+	}
+	switch t.Op {
+	case "&&", "||":
+		a, b := s.reduce(t.A[0]), s.reduce(t.A[1])
+		return boolSimplify(mk(t.Op, a, b))
+	case "!":
+		return boolSimplify(mk("!", s.reduce(t.A[0])))
+	}
+	switch s.decide(t) {
+	case 1:
+		return atom("#true")
+	case 0:
+		return atom("#false")
+	}
+	return t
 }
 
 // decide evaluates a boolean term against the path's facts:
